@@ -1190,22 +1190,34 @@ impl<'a> FormatterImpl<'a> {
                 },
             );
 
-            // Create a virtual file ID for the formatted statements.
-            let file_id = FileLongId::Virtual(VirtualFile {
-                parent: None,
-                name: SmolStrId::from(db, "parser_input"),
-                content: SmolStrId::from(db, format!("{}{merged_uses}", merge_info.leading_trivia)),
-                code_mappings: [].into(),
-                kind: FileKind::Module,
-                original_item_removed: false,
-            })
-            .intern(db);
-
-            let mut ignored_diags = DiagnosticsBuilder::<ParserDiagnostic<'_>>::default();
-            let contents = db.file_content(file_id).unwrap();
+            // Parses the given text as a virtual file and returns its items.
+            let parse_items = |content: String| {
+                let file_id = FileLongId::Virtual(VirtualFile {
+                    parent: None,
+                    name: SmolStrId::from(db, "parser_input"),
+                    content: SmolStrId::from(db, content),
+                    code_mappings: [].into(),
+                    kind: FileKind::Module,
+                    original_item_removed: false,
+                })
+                .intern(db);
+                let mut ignored_diags = DiagnosticsBuilder::<ParserDiagnostic<'_>>::default();
+                let contents = db.file_content(file_id).unwrap();
+                Parser::parse_file(db, &mut ignored_diags, file_id, contents).items(db)
+            };
+            let mut merged_uses = merged_uses.to_string();
+            if self.config.sort_module_level_items {
+                // The merged items are about to be sorted: sort them already here, so that the
+                // leading trivia of the section (e.g. an empty line) stays in front of the section
+                // instead of moving into it together with the item it is attached to.
+                let mut merged_items =
+                    parse_items(merged_uses).as_syntax_node().get_children(db).to_vec();
+                self.sort_items_sections(&mut merged_items);
+                merged_uses = merged_items.iter().map(|item| item.get_text(db)).join("");
+            }
 
             // Add merged children to the new_children list.
-            let items = Parser::parse_file(db, &mut ignored_diags, file_id, contents).items(db);
+            let items = parse_items(format!("{}{merged_uses}", merge_info.leading_trivia));
             new_children.extend(chain!(
                 items.as_syntax_node().get_children(db).iter().copied(),
                 merge_info.trailing_nodes
